@@ -263,7 +263,7 @@ var resAccounts = &resource{
 
 func volAtoms(b *Built) atomSet {
 	ref := b.Ref
-	al := &atomList{}
+	al := &atomList{alias: map[string]string{"account": "address"}}
 	ts1, tie := ref.Txs[1].TS, tieInstant()
 	var s atomSet
 	accA := al.str("account", "$match", "a")
